@@ -15,6 +15,7 @@ import (
 	"io"
 	"reflect"
 	"regexp"
+	"sort"
 	"strconv"
 	"testing"
 	"unicode/utf8"
@@ -183,6 +184,13 @@ var contentTargets = []struct {
 	{"GetPromptResult", func() any { return new(mcp.GetPromptResult) }},
 	{"ReadResourceResult", func() any { return new(mcp.ReadResourceResult) }},
 	{"ListToolsResult", func() any { return new(mcp.ListToolsResult) }},
+	{"InputRequestMap", func() any { return new(mcp.InputRequestMap) }},
+	{"InputResponseMap", func() any { return new(mcp.InputResponseMap) }},
+	{"CallToolParams", func() any { return new(mcp.CallToolParams) }},
+	{"GetPromptParams", func() any { return new(mcp.GetPromptParams) }},
+	{"ReadResourceParams", func() any { return new(mcp.ReadResourceParams) }},
+	{"CompleteParams", func() any { return new(mcp.CompleteParams) }},
+	{"SamplingMessageV2", func() any { return new(mcp.SamplingMessageV2) }},
 }
 
 // checkContentBytes: Unmarshal never panics; what it accepts marshals, and the
@@ -226,6 +234,10 @@ var hostile = []string{
 	`{"jsonrpc":"2.0","id":1,"id":2,"method":"m"}`, `{"jsonrpc":"2.0","id":1,"method":"m","params":{"a":{"a":{"a":{"a":{"a":{"a":{"a":{"a":[[[[[[[[[[[[[[[[[[[[]]]]]]]]]]]]]]]]]]]]}}}}}}}}}`,
 	`{"content":[{"type":"text"}]}`, `{"content":[null]}`, `{"content":null}`, `{"content":{"type":"tool_result","content":[{"type":"tool_result"}]}}`, `{"content":{"type":"image","data":"!!"}}`,
 	`{"content":[{"type":"text","text":5}]}`, `{"content":{"type":"resource","resource":null}}`, `{"messages":[{"role":"user","content":[{"type":"tool_result","toolUseId":"x","content":[{"type":"text","text":""}]}]}],"maxTokens":1}`,
+	`{"content":[],"resultType":"input_required","inputRequests":{"r1":{"method":"elicitation/create","params":{"message":"m","requestedSchema":{"type":"object"}}},"r2":{"method":"roots/list","params":{}},"r3":{"method":"sampling/createMessage","params":{"messages":[],"maxTokens":1}}},"requestState":"s"}`,
+	`{"r1":{"method":"elicitation/create","params":{"message":"m"}},"r2":{"method":"roots/list"}}`, `{"r1":{"action":"accept","content":{}},"r2":{"roots":[]}}`,
+	`{"name":"t","arguments":{},"inputResponses":{"r1":{"action":"decline"},"r2":{"roots":[{"uri":"file:///a"}]},"r3":{"role":"assistant","model":"m","content":{"type":"text","text":"x"}}},"requestState":"s"}`,
+	`{"messages":[],"inputRequests":{"k":{"method":"roots/list","params":null}}}`, `{"ref":{"type":"ref/prompt","name":"p"},"argument":{"name":"a","value":"v"}}`, `{"ref":null,"argument":null}`,
 	`{"messages":[null]}`, `{"messages":[{"content":[]}]}`, `{"role":"user","content":{"type":"tool_use","input":null}}`, `{"contents":[null]}`, `{"tools":[null]}`, `{"tools":[{"annotations":null,"inputSchema":null}]}`,
 }
 
@@ -257,6 +269,43 @@ func mutate(rt *rapid.T, b []byte) []byte {
 	return out
 }
 
+// nullify replaces one value somewhere inside a JSON document by null (or removes a wrapper), keeping the
+// document well-formed: decoders meet null exactly where they expect objects, arrays or strings.
+func nullify(rt *rapid.T, b []byte) []byte {
+	var v any
+	if json.Unmarshal(b, &v) != nil {
+		return b
+	}
+	type slot struct {
+		set func(any)
+	}
+	var slots []slot
+	var walk func(x any, set func(any))
+	walk = func(x any, set func(any)) {
+		slots = append(slots, slot{set})
+		switch t := x.(type) {
+		case map[string]any:
+			keys := make([]string, 0, len(t))
+			for k := range t {
+				keys = append(keys, k)
+			}
+			sort.Strings(keys)
+			for _, k := range keys {
+				walk(t[k], func(nv any) { t[k] = nv })
+			}
+		case []any:
+			for i := range t {
+				walk(t[i], func(nv any) { t[i] = nv })
+			}
+		}
+	}
+	walk(v, func(nv any) { v = nv })
+	sl := slots[rapid.IntRange(0, len(slots)-1).Draw(rt, "null_at")]
+	sl.set([]any{nil, nil, map[string]any{}, []any{}, "s", 1.0}[rapid.IntRange(0, 5).Draw(rt, "null_with")])
+	out, _ := json.Marshal(v)
+	return out
+}
+
 func genBytesScript(rt *rapid.T) BytesScript {
 	s := BytesScript{Target: rapid.IntRange(-4, len(contentTargets)-1).Draw(rt, "target")}
 	if s.Target < -1 {
@@ -269,7 +318,11 @@ func genBytesScript(rt *rapid.T) BytesScript {
 		v, _ := genVal(rt).build()
 		valid, _ = json.Marshal(v)
 	}
-	switch rapid.IntRange(0, 5).Draw(rt, "how") {
+	switch rapid.IntRange(0, 7).Draw(rt, "how") {
+	case 6:
+		s.Data = nullify(rt, valid)
+	case 7:
+		s.Data = nullify(rt, []byte(rapid.SampledFrom(hostile).Draw(rt, "hostile")))
 	case 0:
 		s.Data = rapid.SliceOfN(rapid.Byte(), 0, 40).Draw(rt, "raw")
 	case 1:
